@@ -5,6 +5,7 @@ import (
 	"errors"
 	"fmt"
 	"sort"
+	"strings"
 
 	"github.com/bloxapp/ssv/storage/basedb"
 )
@@ -238,6 +239,9 @@ const (
 	FaultCrashBefore
 	FaultCrashAfter
 	FaultError
+	// FaultReadErrorSticky: from point At on EVERY read (Get / GetMany / GetAll) fails until the fault is
+	// disarmed (At = 0), writes still succeed: an unreadable table block, a retry loop that keeps failing.
+	FaultReadErrorSticky
 )
 
 type FaultDB struct {
@@ -267,6 +271,13 @@ func (f *FaultDB) Point(op string) (after bool, err error) {
 	f.Calls++
 	if len(f.Ops) < 4096 {
 		f.Ops = append(f.Ops, op)
+	}
+	if f.At != 0 && f.Mode == FaultReadErrorSticky {
+		if f.Calls >= f.At && strings.Contains(op, "Get") {
+			f.Fired = op
+			return false, ErrInjected
+		}
+		return false, nil
 	}
 	if f.At != 0 && f.Calls == f.At {
 		f.Fired = op
